@@ -145,7 +145,10 @@ CLAIMS['C03'] = {
              'failed, unreserve invalid class, the counter assertions of Tree::put / LocalTree::put, bit-field setter bounds, No locals for class, Invalid class, the unwraps, '
              'the subtraction in reserve_or_steal, the zero divisor of the tree search and all lower roll-back sites are unreachable; a thread of the model can only die by an '
              'index outside the buffers (C18).'
-             + PART + 'partial frees of huge allocations under interleavings are REFUTED (K1), change_tree under interleavings is explored '
+             ' Theorem k2_online_race_panics is a SECOND REFUTATION (known finding K2): a kernel-evaluated schedule in which a free of a held frame into an offline tree is '
+             'preempted between lower.put and trees.put while change_tree(Online) fetches the lower counters; the resuming free makes Tree::put assert free <= TREE_FRAMES '
+             '(k2_sequential_ok: the same two calls in sequence are fine); replayed on the real code (findings/K2-online-race.txt, conc scenario kind 6 of every run).'
+             + PART + 'partial frees of huge allocations under interleavings are REFUTED (K1), change_tree(Online) concurrent with frees is REFUTED (K2); the rest of change_tree under interleavings is explored '
              '(DFS/random schedules with panic capture and the held-free oracle), not proved; K1 shows that the restriction to frees at allocation order is necessary.'),
     'note': TB + ' Upper-level theorems hold for configurations satisfying CfgOk (class ids < 8, ordered policy, tree size < 2^19: every configuration of the repository; derived from elementary checks by CfgOk.of_checks); they depend on the C23 theorem (bv_decide axioms) through the lower search.',
     'technique': 'Lean 4: refutation by a kernel-checked schedule (decide) + sequential panic-freedom theorems over all histories + rely/guarantee proofs of panic-freedom of the lower allocator and of the whole public interface under all interleavings (two ghost protocols, each strict about the other level); trace co-simulation with known-finding matching',
@@ -160,7 +163,9 @@ CLAIMS['C04'] = {
              ' Theorems tree_stats_total / fast_total_exact: the program tree_stats() never panics, reads only, and its free total plus the frames hidden by '
              'Offline equals the exact total that stats() reports - fast = exact - offline as program outputs, in every invariant state (partition argument over '
              'the slot ranges). Theorem validate_passes: all assertions of validate() hold (it runs to the end without panic, reading only) in every invariant state '
-             'without offline trees. Theorems stats_at_frame_exact / is_free_exact: the per-frame query reports one free frame exactly if the frame is not allocated and is_free(frame, order) answers exactly whether every frame of the aligned in-range block is free, for every order 0..TREE_ORDER (counter shortcuts, single-row mask test, whole-row loop, table-entry loop), reading only. Theorems conc_quiescent_upper_invariant / conc_quiescent_fast_total / conc_quiescent_validate_passes: from any state satisfying the upper invariant, ANY number of threads running ANY lists of public calls (get with any request on every path, put of held blocks at their allocation order, drain) under ANY schedule: whenever all calls have returned the sequential upper invariant holds again (tree counter + reservations + hidden = free frames of every tree, reserved entries exactly those named by a slot, lower counters exact), so tree_stats + hidden = stats and validate() passes at every such quiescent end (upper ghost state per thread, legal transitions of tree entries and slots, invariance of the free-or-held count under every lower step; DESIGN 11.10).' + PART + 'interleavings in which a call trapped, partial frees of huge allocations (K1) and change_tree under interleavings are carried by '
+             'without offline trees. Theorems stats_at_frame_exact / is_free_exact: the per-frame query reports one free frame exactly if the frame is not allocated and is_free(frame, order) answers exactly whether every frame of the aligned in-range block is free, for every order 0..TREE_ORDER (counter shortcuts, single-row mask test, whole-row loop, table-entry loop), reading only. Theorems conc_quiescent_upper_invariant / conc_quiescent_fast_total / conc_quiescent_validate_passes: from any state satisfying the upper invariant, ANY number of threads running ANY lists of public calls (get with any request on every path, put of held blocks at their allocation order, drain) under ANY schedule: whenever all calls have returned the sequential upper invariant holds again (tree counter + reservations + hidden = free frames of every tree, reserved entries exactly those named by a slot, lower counters exact), so tree_stats + hidden = stats and validate() passes at every such quiescent end (upper ghost state per thread, legal transitions of tree entries and slots, invariance of the free-or-held count under every lower step; DESIGN 11.10). Theorem k3_online_race_overreports REFUTES the property for interleavings with a concurrent change_tree(Online) (known finding K3): a kernel-evaluated schedule '
+             'ending quiescent with tree counter 64 although only 63 frames of the tree are free (the frames of a free that raced with the Online fetch are counted twice); on the real code '
+             'tree_stats().free_frames exceeds the exact count and validate() fails (findings/K3-online-race.txt, conc scenario kind 7 of every run).' + PART + 'interleavings in which a call trapped, partial frees of huge allocations (K1) and change_tree under interleavings (K3: false for Online racing with a free) are carried by '
              'the accounting oracle of the sequential and concurrent correspondence.'),
     'note': TB + ' Upper-level theorems hold for configurations satisfying CfgOk (class ids < 8, ordered policy, tree size < 2^19: every configuration of the repository; derived from elementary checks by CfgOk.of_checks); they depend on the C23 theorem (bv_decide axioms) through the lower search.',
     'technique': 'Lean 4 theorems from the lower and upper invariants + accounting oracle in the sequential differential and at quiescent ends of co-simulated interleavings',
